@@ -319,6 +319,15 @@ def rule_r3(rep, program: Program):
         r.inst({"on IntegratorError": repr(hf[0][1]) if hf else None})
         if not hf or hf[0][1].const_value() >= 1 or not sets:
             r.violate(PROP, f"{f.qualname}:error-handler", "an integrator failure during the initial search does not shrink the step size / mark it as too big", node=h, file=f.file)
+        # every kind of integrator failure (convergence, non-reversible step, divergence) counts as
+        # "too big": the handler must catch the base class IntegratorError
+        from ..exctypes import ExcTypes
+
+        et = ExcTypes(program)
+        catches_all = et.catches(h, "mici.IntegratorError", f.module)
+        r.inst({"handler types": [norm(h.type)] if h.type is not None else ["<bare>"], "catches every IntegratorError": catches_all})
+        if catches_all is not True:
+            r.violate(PROP, f"{f.qualname}:handler-type:{norm(h.type) if h.type is not None else None}", f"the handler of the trial step catches `{norm(h.type) if h.type is not None else None}`, which does not cover every IntegratorError (e.g. NonReversibleStepError, HamiltonianDivergenceError): such a failure at a trial step size escapes from initialize instead of being treated as 'step size too big', so the search does not return a step size at the log 2 crossing", node=h, file=f.file)
     init = [n for n in ast.walk(f.node) if isinstance(n, ast.Assign) and norm(n.targets[0]) == "integrator.step_size"]
     r.inst({"initial": norm(init[0].value) if init else None})
     _search_transition_table(r, f)
